@@ -345,6 +345,8 @@ static int mutate_ext(spif_obj_t x, int k, long how, long ext, char *t, const op
    business.  Returns 0 where the kind has no operation that takes a second object of its class. */
 static int mutate_alias(spif_obj_t x, int k, long how, long al)
 {
+    /* every one of these doubles the object: beyond a few kilobytes the ordinary mutators take over, or a dozen of them in a row would use up the arena */
+    if ((k == K_STR && SPIF_STR(x)->len > 8192) || (k == K_USTR && ((spif_ustr_t)x)->len > 8192) || (k == K_MBUFF && SPIF_MBUFF(x)->len > 8192)) return 0;
     switch (k) {
     case K_STR: {
         spif_str_t s = SPIF_STR(x);
